@@ -6,7 +6,9 @@ import (
 	"math"
 	"os"
 	"path/filepath"
+	"runtime"
 	"strings"
+	"sync"
 	"sync/atomic"
 	"syscall"
 	"time"
@@ -149,6 +151,108 @@ func Run(ctx *common.Ctx) int {
 		if !identical(a, b) {
 			ctx.Report(p.name+"/differs", fmt.Sprintf("%s: byte entry point returns %v, bit entry point on the MSB-first expansion returns %v", p.name, a, b), desc())
 		}
+	}
+	// (0) the agreement must also hold when the machine is busy: eight goroutines per CPU call the byte entry
+	// point, the bit entry point and (where there is one) the registry runner of the same test at once, three
+	// rounds on byte strings of four sizes; every result is compared with the one computed beforehand on a single
+	// goroutine (a pooled work array handed back too early, a shared scratch buffer shows here and nowhere else)
+	{
+		loadData := [][]byte{enum.FillerBytes(1121, uint64(ctx.Seed)+71), enum.FillerBytes(2500, uint64(ctx.Seed)+72), enum.FillerBytes(4099, uint64(ctx.Seed)+73), enum.FillerBytes(8192, uint64(ctx.Seed)+74)}
+		loadBits := make([][]bool, len(loadData))
+		for i := range loadData {
+			loadBits[i] = refmodel.Bits(loadData[i])
+		}
+		type ref struct{ a, b []float64 }
+		refs := make([][]ref, len(ps))
+		reps := make([]int, len(ps)) // cheap pairs are repeated in a tight loop: the window for a hand-over is short
+		for i := range ps {
+			refs[i] = make([]ref, len(loadData))
+			t0 := time.Now()
+			for k := range loadData {
+				if len(loadData[k]) >= ps[i].minB {
+					_ = common.Catch(func() { refs[i][k] = ref{ps[i].bytes(loadData[k]), ps[i].bits(loadBits[k])} })
+				}
+			}
+			reps[i] = 1
+			if d := time.Since(t0); d < 40*time.Millisecond {
+				reps[i] = 25
+			}
+		}
+		workers := 8 * runtime.NumCPU()
+		var wgl sync.WaitGroup
+		for g := 0; g < workers; g++ {
+			g := g
+			wgl.Add(1)
+			go func() {
+				defer wgl.Done()
+				for round := 0; round < 3; round++ {
+					for i := range ps {
+						k := (g + i + round) % len(loadData)
+						if refs[i][k].a == nil || strings.Contains(ps[i].name, "LinearComplexity") && round > 0 {
+							continue
+						}
+						var a, b []float64
+						for rep := 1; rep < reps[i]; rep++ {
+							kk := (k + rep) % len(loadData)
+							if refs[i][kk].a == nil {
+								continue
+							}
+							var a2 []float64
+							if pv := common.Catch(func() { a2 = ps[i].bytes(loadData[kk]) }); pv == nil && !identical(a2, refs[i][kk].a) {
+								ctx.Report(ps[i].name+"/under-load", fmt.Sprintf("%s: with %d goroutines calling the entry points at once the byte entry point returns %v, alone it returns %v", ps[i].name, workers, a2, refs[i][kk].a),
+									map[string]interface{}{"bytes": len(loadData[kk]), "filler_seed": ctx.Seed + 71 + int64(kk)})
+							}
+						}
+						if pv := common.Catch(func() { a, b = ps[i].bytes(loadData[k]), ps[i].bits(loadBits[k]) }); pv != nil {
+							ctx.Report(ps[i].name+"/under-load", fmt.Sprintf("%s panicked under load: %v", ps[i].name, pv), map[string]interface{}{"bytes": len(loadData[k])})
+							continue
+						}
+						atomic.AddInt64(&evals, 1)
+						if !identical(a, refs[i][k].a) || !identical(b, refs[i][k].b) {
+							ctx.Report(ps[i].name+"/under-load", fmt.Sprintf("%s: with %d goroutines calling the entry points at once the byte / bit entry points return %v / %v, alone they return %v / %v", ps[i].name, workers, a, b, refs[i][k].a, refs[i][k].b),
+								map[string]interface{}{"bytes": len(loadData[k]), "filler_seed": ctx.Seed + 71 + int64(k)})
+						}
+					}
+				}
+			}()
+		}
+		wgl.Wait()
+		// ... and every pair on its own: all goroutines call nothing but that pair's byte entry point for 80 ms
+		// (a goroutine suspended between a callee's return and the use of what it returned meets only callers
+		// of the same function on its processor)
+		for i := range ps {
+			if ctx.Expired() {
+				break
+			}
+			stop := time.Now().Add(80 * time.Millisecond)
+			var wgp sync.WaitGroup
+			var bad int32
+			for g := 0; g < workers; g++ {
+				g := g
+				wgp.Add(1)
+				go func() {
+					defer wgp.Done()
+					for it := 0; it < 3 || time.Now().Before(stop); it++ {
+						k := (g + it) % len(loadData)
+						if refs[i][k].a == nil {
+							continue
+						}
+						var a2 []float64
+						pv := common.Catch(func() { a2 = ps[i].bytes(loadData[k]) })
+						atomic.AddInt64(&evals, 1)
+						if pv == nil && !identical(a2, refs[i][k].a) && atomic.AddInt32(&bad, 1) == 1 {
+							ctx.Report(ps[i].name+"/under-load", fmt.Sprintf("%s: with %d goroutines calling it at once the byte entry point returns %v, alone it returns %v", ps[i].name, workers, a2, refs[i][k].a),
+								map[string]interface{}{"bytes": len(loadData[k]), "filler_seed": ctx.Seed + 71 + int64(k)})
+						}
+						if it > 100000 {
+							break
+						}
+					}
+				}()
+			}
+			wgp.Wait()
+		}
+		samples = append(samples, map[string]interface{}{"family": "entry points under load", "goroutines": workers, "rounds": 3, "byte_lengths": []int{1121, 2500, 4099, 8192}})
 	}
 	// (1) bytes vs bits: every 1-, 2- (3-) byte string
 	maxB := 2
